@@ -39,6 +39,104 @@ class FakeBody:
         return self._sp["l"]
 
 
+def _derive_classes(F, rows, a):
+    """{type parameter: set of access classes} of an unclassified ADT, from its fields: a classified ADT passes on the class it has
+    for the argument in that position; `&P..` is SHARED, `&mut P..` is MUT, an owned P (by value, in a tuple / array / std
+    container / PhantomData of one of these shapes) is OWN. None if a field holds a raw pointer / NonNull / an unclassified
+    crate type / a function pointer mentioning a parameter - then the fields do not say what the type may do."""
+    out = {}
+    api_needed = []
+
+    def add(p, c):
+        out.setdefault(p, set()).add(c)
+
+    def params_of(ty, acc):
+        k = ty.get("k")
+        if k == "param":
+            acc.add(ty.get("name") or ty.get("s"))
+        for key in ("inner", "elem"):
+            if isinstance(ty.get(key), dict):
+                params_of(ty[key], acc)
+        for x in (ty.get("args") or []) + (ty.get("elems") or []):
+            if isinstance(x, dict):
+                params_of(x, acc)
+        return acc
+
+    def go(ty, ctx):
+        k = ty.get("k")
+        if k == "param":
+            add(ty.get("name") or ty.get("s"), ctx)
+            return True
+        if k == "ref":
+            inner_ctx = "MUT" if ty.get("mut") and ctx in ("OWN", "MUT") else "SHARED"
+            return go(ty["inner"], inner_ctx)
+        if k in ("ptr", "rawptr", "fnptr", "fndef", "dyn", "closure", "alias", "opaque"):
+            return not params_of(ty, set())
+        if k in ("tuple",):
+            return all(go(e, ctx) for e in ty.get("elems", []))
+        if k in ("array", "slice"):
+            return go(ty.get("inner") or ty.get("elem"), ctx)
+        if k == "adt":
+            pth = ty.get("path", "")
+            args = ty.get("args", [])
+            if pth in F.adts:
+                r_ = rows.get(pth)
+                if r_ is None:
+                    if any(params_of(x, set()) for x in args):
+                        # an unclassified crate-internal type (a raw cursor): what the new type can do with the parameters is then
+                        # read off its own public surface (associated types and method results), see below
+                        api_needed.append(pth)
+                    return True
+                tps = [g for g in F.adts[pth]["generics"] if not g.startswith("'")]
+                ok = True
+                for g, x in zip(tps, args):
+                    c = r_.get(g)
+                    if c is None or c not in REQ:
+                        if params_of(x, set()):
+                            return False
+                        continue
+                    if c == "NOACCESS":
+                        continue
+                    # through a shared reference everything is at most shared
+                    c2 = "SHARED" if ctx == "SHARED" else c
+                    ok = go(x, c2) and ok
+                return ok
+            if "NonNull" in pth or "UnsafeCell" in pth or pth.startswith("core::cell::"):
+                return not any(params_of(x, set()) for x in args)
+            # std / core containers and PhantomData: the argument is held the way the container is
+            return all(go(x, ctx) for x in args)
+        return True
+    for v in a["variants"]:
+        for f in v["fields"]:
+            if not go(f["ty"], "OWN"):
+                return None
+    if api_needed:
+        X = a.get("path") or [k_ for k_, v_ in F.adts.items() if v_ is a][0]
+        seen_api = 0
+        for im in F.impls:
+            if im.get("self_ty", {}).get("k") == "adt" and im["self_ty"].get("path") == X:
+                for it in im.get("items", []):
+                    if it.get("kind") == "type" and isinstance(it.get("ty"), dict):
+                        seen_api += 1
+                        if not go(it["ty"], "OWN"):
+                            return None
+        for fn in F.fns.values():
+            imp = fn.get("impl") or {}
+            if imp.get("self_ty", {}).get("k") == "adt" and imp["self_ty"].get("path") == X and isinstance(fn.get("output"), dict):
+                seen_api += 1
+                o = fn["output"]
+                if o.get("k") == "adt" and o.get("path") == X:
+                    continue
+                if not go(o, "OWN"):
+                    return None
+        if not seen_api:
+            return None
+    for g in a["generics"]:
+        if not g.startswith("'"):
+            out.setdefault(g, set())
+    return out
+
+
 def r_auto(F, V):
     R = Result("R-AUTO", F.cfg)
     tab = load_table()
@@ -52,11 +150,42 @@ def r_auto(F, V):
             continue
         anchor = FakeBody(path, a["sp"])
         row = rows.get(path)
+        derived = None
         if row is None:
-            R.undec("public type %s has no access-class row in tables/auto_traits.json: a new public type needs a verdict" % path)
-            continue
+            # a type added after the table was written: if it is put together from classified types, references and owned values
+            # (no raw pointers of its own), its access classes follow from its fields and every one of them is checked
+            derived = _derive_classes(F, rows, a)
+            if derived is None:
+                R.undec("public type %s has no access-class row in tables/auto_traits.json and holds raw pointers / unclassified types: a new public type of that kind needs a verdict" % path)
+                continue
+            row = {"_why": "derived from the fields"}
         n += 1
         tparams = [g for g in a["generics"] if not g.startswith("'")]
+        if derived is not None:
+            for trait_i, trait in enumerate(("Send", "Sync")):
+                au = a["auto"][trait]
+                nq += au.get("queries", 0)
+                if not au["full"]:
+                    R.inst("%s|%s" % (path, trait), "%s is never %s (stricter than any class)" % (path, trait), "ok", True)
+                    continue
+                need = set((x[0], x[1]) for x in au["need"])
+                bad = []
+                for tp in tparams:
+                    for cls in sorted(derived.get(tp, ())):
+                        alts = REQ[cls][trait_i]
+                        if alts and not any((tp, alt) in need for alt in alts):
+                            bad.append((tp, cls, alts))
+                if bad:
+                    for (tp, cls, alts) in bad:
+                        R.violation("%s|%s|%s" % (path, trait, tp), anchor,
+                                    "`%s: %s` holds without requiring `%s: %s` although the (new) type gives %s access to `%s` through one of its fields: it can be %s another thread with contents that do not allow it"
+                                    % (path, trait, tp, " or ".join(alts), cls, tp, "sent to" if trait == "Send" else "shared with"),
+                                    required=" or ".join("%s: %s" % (tp, x) for x in alts), implemented_bounds=sorted("%s: %s" % x for x in need))
+                    R.inst("%s|%s" % (path, trait), "bounds %s" % sorted(need), "violation", True)
+                else:
+                    R.inst("%s|%s" % (path, trait), "new type, classes derived from its fields (%s): %s requires %s; satisfied" % (
+                        ", ".join("%s: %s" % (k_, "/".join(sorted(v_))) for k_, v_ in sorted(derived.items())), trait, sorted("%s: %s" % x for x in need)), "ok", True)
+            continue
         for tp in tparams:
             if tp not in row:
                 R.undec("type %s: parameter %s has no access class in tables/auto_traits.json" % (path, tp))
@@ -519,4 +648,49 @@ def r_raw_escape(F, V):
             R.inst(p, "raw type in public signature", "violation", False)
     R.inst("all", "%d effectively-public signatures scanned, none mentions raw::/control:: types" % n, "ok", True)
     R.floor("effectively-public fns", n, 200)
+    return R
+
+
+# --------------------------------------------------------------- R-DROPCK
+
+def r_dropck(F, V):
+    """A destructor that goes through a raw pointer to a *borrowed* table must belong to a type that carries the borrow's
+    lifetime: drop-check only keeps the referent alive for lifetimes that appear in the type that implements Drop. A
+    lifetime-free helper struct (`ResetOnDrop<T, A> { table: NonNull<RawTable<T, A>> }`) with a Drop impl, used as a field of
+    a borrowing handle, lets the collection be dropped before the handle - whose destructor then writes into freed memory."""
+    R = Result("R-DROPCK", F.cfg)
+    n = 0
+    TABLES = ("raw::RawTable", "raw::RawTableInner", "map::HashMap", "set::HashSet", "table::HashTable")
+
+    def points_to_table(ty):
+        hit = []
+
+        def f(nd, under):
+            if nd.get("k") == "adt" and nd.get("path") in TABLES and any(u.get("k") in ("ptr", "rawptr") or (u.get("k") == "adt" and "NonNull" in (u.get("path") or "")) for u in under):
+                hit.append(nd["path"])
+        walk(ty, f)
+        return hit
+    for im in F.impls:
+        if im.get("trait") != "core::ops::drop::Drop" or im["self_ty"].get("k") != "adt":
+            continue
+        X = im["self_ty"]["path"]
+        a = F.adts.get(X)
+        if not a:
+            continue
+        ptr_fields = [(f["name"], points_to_table(f["ty"])) for v in a["variants"] for f in v["fields"]]
+        ptr_fields = [(nm, h) for nm, h in ptr_fields if h]
+        if not ptr_fields:
+            continue
+        n += 1
+        key = "%s|drop-through-raw-pointer" % X
+        lifetimes = [g for g in a["generics"] if g.startswith("'")]
+        owns = any("alloc" in f["name"].lower() or f["name"] in ("allocation",) for v in a["variants"] for f in v["fields"])
+        if lifetimes or owns:
+            R.inst(key, "has a destructor and a raw pointer to a table, and carries %s" % ("the lifetime(s) %s of the borrow" % ", ".join(lifetimes) if lifetimes else "the allocation it owns"), "ok", True)
+        else:
+            R.violation(key, FakeBody(X, a["sp"]), "%s implements Drop and reaches a table through the raw pointer field `%s`, but has no lifetime parameter: drop-check does not require the table to outlive a value "
+                        "containing it, so the collection can be dropped first and the destructor then writes into freed memory (a `par_drain()` / guard declared before its collection compiles)" % (X, ptr_fields[0][0]))
+            R.inst(key, "lifetime-free destructor over a borrowed table", "violation", True)
+    R.info["types with Drop and a raw table pointer"] = n
+    R.inst("scan", "%d Drop impls scanned" % len([im for im in F.impls if im.get("trait") == "core::ops::drop::Drop"]), "ok", True)
     return R
